@@ -15,6 +15,7 @@ CHECKS = {
  'C08': ('E2 templates: no panic path feasible, EGraph::check() from MIR, enodes look up to their class, idempotent canonicalisation, after every operation', 'model_checking', '§4 C08'),
  'C09': ('E2 templates with re-insertion steps: no allocation, equal invocation, lookup agrees with add', 'model_checking', '§4 C09'),
  'C11': ('E2 templates: all paths (name orders) and hash iteration orders of one coincidence pattern yield identical observables', 'model_checking', '§4 C11'),
+ 'C16': ('E2 unit: every variant of a derived language (plain slots, Bind, nested Bind, Bind before/after/between free children, payload) with all slot positions symbolic through the macro-generated code and the Language default methods; per coincidence pattern the shape must equal an independent canonical form, bijection / apply_slotmap / idempotence / slots / public-private partition / syntax round trip', 'model_checking', '§4 C16'),
  'C17': ('E2 unit: one inductive step of Slot::fresh/numeric/named/Display from MIR from an arbitrary slot-table state under the quantified invariant; dev and release (wrapping) variants', 'model_checking', '§4 C17'),
  'C18': ('E2: Pattern::parse recursive descent + derived from_syntax from MIR on every token sequence up to the bound (symbolic kinds / identifiers / slots) and tokenize+parse on every string of symbolic Unicode scalar values up to the bound: no panic, Ok values well formed; round-trip clause outside', 'model_checking', '§4 C18'),
  'C19': ('E2 unit: every public SlotMap method from MIR on maps of concrete size with symbolic slots, reference finite map as z3 ite-terms, queries for a fresh symbolic key; maps of 11-40 entries for one symbolic operation', 'model_checking', '§4 C19'),
